@@ -111,6 +111,20 @@ CHECKS = [
         "text": "Decides the structural preconditions of soundness: inspect_origin and resolve_runtime_value consult config, context (not deleted), default, required in the same order and node constructors and the builder share one unknown-parameter classifier; the required-key set is collected per node against keys produced by earlier nodes only, before the node's own keys are registered, and is not reduced afterwards; the type check compares each typed input with the output type carried from the last node that declared one, updated for every typed node, in the run-time gate's direction, and its errors are raised; per node every created key (incl. probe key) is recorded as produced by this node and un-deleted, suppressed keys become deleted, classification reads the live state and precedes the node's own updates.",
         "note": "Assumes per-node declarations of processors are true. The implication 'accepted => no flow failure' for arbitrary user processors and the dynamic comparison of reported facts are not decided.",
     },
+    {
+        "property_id": "C03",
+        "design_ref": "DESIGN.md section 3, C03",
+        "technique": "static analysis: order provenance of the step enumeration, guard dominance of the length test, last-writer analysis of the merge, normal-form sibling comparison of the three generated bodies plus absolute form rules, name-template agreement and reachability of the <var>_values publication, constant-table comparison of the YAML conversion, argument provenance of materialisation",
+        "text": "Decides: combinatorial steps are the product over sequences in plain sorted-name order paired with the names, by_position steps are aligned positions reached only after broadcast or the equal-length test (ValueError otherwise), broadcast cycles up to the longest; computed values overwrite provided ones; each of the three generated bodies materialises from the class variables, drops from-context keys, selects provided kwargs by presence, iterates with the declared mode/broadcast, evaluates every expression on the step, merges, filters to the element's names, applies the element once per step in order and returns the collection (probes: the list) - and they agree pairwise on these steps; every variant declares and publishes <var>_values, materialisation stores exactly those keys, the probe node publishes and declares them; YAML spellings map to the documented spec classes/defaults; linspace/logspace/sequence/from_context receive the spec fields in their roles.",
+        "note": "Numerical content of ranges and expression values, and the typed collection's behaviour, are not decided.",
+    },
+    {
+        "property_id": "C16",
+        "design_ref": "DESIGN.md section 3, C16",
+        "technique": "static analysis: class-template extraction (nested class statements, type()/new_class namespaces) crossed with the classmethod rule table read from the contract catalogue on every run, shape rules SVA241/250/104/105 on templates, delegation patterns of node classes, created-key mirror and uniqueness, registry container shape",
+        "text": "Decides the shape-decidable part of the catalogue for every template the factories can instantiate (13 templates): each attribute the catalogue requires to be a classmethod (10 names read from expectations.py plus *_data_type) is bound to a classmethod; context-processor templates do not override operate_context; generated _process_logic and attached signatures have no context parameter / ContextType annotation; key providers return lists; node classes delegate input/output types to the processor (sources take NoDataType, sinks/probes pass the input type through, operations delegate both); node created keys include the processor's keys without duplicates; classes are registered per class (not per shared name) so registry coherence holds.",
+        "note": "Value-level rules (SVA004, SVA101 for arbitrary wrapped classes) are not decided; validate_components is never run.",
+    },
 ]
 _TODO = "check not built yet in this session (planned: DESIGN.md section 3); not claimed until its rules run clean and fire on their variants"
 NOT_APPLICABLE = [
